@@ -260,7 +260,14 @@ def check_single(arg):
             head = "object-group network G" if src == "ios" else "object-group ip address G"
             o = cisco_acl.AddrGroup("\n".join([head] + text), platform=src)
             a = [c for m in o.items for c in cisco_ref.read_address(sc_strip(m.line).split(), 0, src, None, mask_is_subnet=(src == "ios"))[0]]
-            o.platform = dst
+            try:
+                o.platform = dst
+            except ValueError:
+                # an IOS object-group cannot spell a non-contiguous wildcard or 0.0.0.0/0: refusing the whole conversion is right, losing the member is not
+                if dst == "ios" and any(sc_strip(t) in ("0.0.0.0/0", "any") or (len(sc_strip(t).split()) == 2 and cisco_ref.is_ip(sc_strip(t).split()[1])
+                                                                             and cisco_ref.parse_ip(sc_strip(t).split()[1]) & (cisco_ref.parse_ip(sc_strip(t).split()[1]) + 1)) for t in text):
+                    return [], 1
+                raise
             b = [c for m in o.items for c in cisco_ref.read_address(sc_strip(m.line).split(), 0, dst, None, mask_is_subnet=(dst == "ios"))[0]]
             same = sets.union_equal(a, b) is None and len(a) == len(b)
             # members of an IOS object-group carry no sequence numbers
@@ -330,7 +337,10 @@ def main(chk):
             singles.append(("addr", a, src))
     singles += [("group", ["host 10.0.0.1", "10.0.0.0 255.255.255.0", "10.0.2.0 255.255.254.0"], "ios"),
                 ("group", ["host 10.0.0.1", "10.0.0.0/24", "10 10.0.2.0/23"], "nxos"), ("group", ["10.0.0.0/24", "20 10.0.1.0/24"], "nxos"),
-                ("group", ["10 10.0.0.0/24", "20 host 1.1.1.1", "30 10.0.1.0/24", "40 10.0.0.9/32"], "nxos")]
+                ("group", ["10 10.0.0.0/24", "20 host 1.1.1.1", "30 10.0.1.0/24", "40 10.0.0.9/32"], "nxos"),
+                # members an IOS object-group cannot spell: the conversion is refused as a whole (or keeps the meaning), a member never just disappears
+                ("group", ["10.0.0.0/24", "10.1.0.0 0.0.3.3", "host 1.1.1.1"], "nxos"), ("group", ["10 10.0.0.0/24", "20 0.0.0.0/0"], "nxos"),
+                ("group", ["10.0.0.1 0.0.255.0", "10.0.0.0/24"], "nxos"), ("group", ["10.0.0.0/24", "10.1.0.0 0.0.0.255", "host 1.1.1.1"], "nxos")]
     res = pmap(check_single, singles)
     viol = 0
     for fails, _ in res:
